@@ -40,10 +40,22 @@ impl UnaryParser {
                     };
 
                     match token.deref() {
-                        TokenType::Number(double, number_type)         => return Ok(SmartCalcAstType::Item(Rc::new(NumberItem(double * opt, *number_type)))),
-                        TokenType::Variable(variable)     => return Ok(SmartCalcAstType::PrefixUnary(operator, Rc::new(SmartCalcAstType::Variable(variable.clone())))),
-                        TokenType::Percent(percent)       => return Ok(SmartCalcAstType::PrefixUnary(operator, Rc::new(SmartCalcAstType::Item(Rc::new(PercentItem(*percent)))))),
-                        TokenType::Money(money, currency) => return Ok(SmartCalcAstType::PrefixUnary(operator, Rc::new(SmartCalcAstType::PrefixUnary(operator, Rc::new(SmartCalcAstType::Item(Rc::new(MoneyItem(*money, currency.clone())))))))),
+                        TokenType::Number(double, number_type)         => {
+                            parser.consume_token();
+                            return Ok(SmartCalcAstType::Item(Rc::new(NumberItem(double * opt, *number_type))));
+                        },
+                        TokenType::Variable(variable)     => {
+                            parser.consume_token();
+                            return Ok(SmartCalcAstType::PrefixUnary(operator, Rc::new(SmartCalcAstType::Variable(variable.clone()))));
+                        },
+                        TokenType::Percent(percent)       => {
+                            parser.consume_token();
+                            return Ok(SmartCalcAstType::PrefixUnary(operator, Rc::new(SmartCalcAstType::Item(Rc::new(PercentItem(*percent))))));
+                        },
+                        TokenType::Money(money, currency) => {
+                            parser.consume_token();
+                            return Ok(SmartCalcAstType::PrefixUnary(operator, Rc::new(SmartCalcAstType::PrefixUnary(operator, Rc::new(SmartCalcAstType::Item(Rc::new(MoneyItem(*money, currency.clone()))))))));
+                        },
                         _ => {
                             parser.set_index(index_backup);
                             return Err(("Unary works with number", 0, 0));
